@@ -522,11 +522,12 @@ def Linear.create (solve : Solver) (nFeatures : Nat) (xs : List (List Rat)) (ys 
   Linear.initWithX solve fresh d 0 (ys.length : Int)
 
 /-- `_fit_reglin`: row `i` of `betas_` is `node_beta` of the criterion created on the training
-rows whose `predict_leaves` is `i` (`predLeaves` is scikit-learn's output, a parameter) -/
+rows selected by `ind = pred_leaves == <fitLeaf i>` (`predLeaves` is scikit-learn's output, a
+parameter; `fitLeaf` is regenerated from the source) -/
 def fitReglin (solve : Solver) (nFeatures : Nat) (X : List (List Rat)) (y : List Rat)
     (predLeaves : List Nat) (nLeaves : Nat) : List (List Rat) :=
-  (List.range nLeaves).map (fun i =>
-    let ind := predLeaves.map (fun l => l == i)
+  (List.range nLeaves).map (fun (i : Nat) =>
+    let ind := predLeaves.map (fun l => l == (fitLeaf (i : Int)).toNat)
     let c := Linear.create solve nFeatures (maskRows X ind) (maskRows y ind)
     let b := Linear.nodeBeta solve c
     (List.range (nFeatures + 1)).map (fun (j : Nat) => b (j : Int)))
@@ -535,9 +536,13 @@ def dot : List Rat → List Rat → Rat
   | a :: as, b :: bs => a * b + dot as bs
   | _, _ => 0
 
-/-- `_predict_reglin`: `pred[i] = dot(Xone[i, :], betas_[leaves[i], :])` -/
+/-- `_predict_reglin`: `li = leaves[<predLeafIdx i>]; pred[i] = dot(Xone[<predXRow i>, :],
+betas_[<predBetaRow i li>, :])`, index expressions regenerated from the source -/
 def predictReglin (betas : List (List Rat)) (leaves : List Nat) (Xq : List (List Rat)) : List Rat :=
-  (Xq.zip leaves).map (fun xl => dot (xl.1 ++ [1]) (betas.getD xl.2 []))
+  (List.range Xq.length).map (fun (i : Nat) =>
+    let leaf := leaves.getD (predLeafIdx (i : Int)).toNat 0
+    dot (Xq.getD (predXRow (i : Int)).toNat [] ++ [1])
+      (betas.getD (predBetaRow (i : Int) (leaf : Int)).toNat []))
 
 /-- `DecisionTreeRegressor.predict` with criterion 'simple': `tree_.value[leaf]`, the value the
 builder stored from `node_value` of the criterion initialised on the leaf's sample range -/
